@@ -122,6 +122,7 @@ class Constraints(object):
     """
     # Ignore unlabeled samples
     known_labels_mask = self.partial_labels >= 0
+    known_labels_idx, = np.where(known_labels_mask)
     known_labels = self.partial_labels[known_labels_mask]
     X = X[known_labels_mask]
 
@@ -199,7 +200,8 @@ class Constraints(object):
                                          k_genuine_vec[i],
                                          k_impostor_vec[i])
 
-    return triplets
+    # map back to the positions of the points in the caller's array
+    return known_labels_idx[triplets]
 
   def _pairs(self, n_constraints, same_label=True, max_iter=10,
              random_state=np.random):
